@@ -1,7 +1,22 @@
--- root of the library: models, generated tables, lemmas and property theorems
+-- root of the library: models, generated tables, lemmas and property theorems (all of them, so that
+-- MANIFEST.setup_cmd pre-builds everything and the per-property checks only rebuild what changed)
 import DelbModel.Generated.Tables
-import DelbModel.Model.Tree
-import DelbModel.Model.Wrap
-import DelbModel.Model.Whitespace
-import DelbModel.Lemmas.Wrap
+import DelbModel.Props.C01
+import DelbModel.Props.C02
+import DelbModel.Props.C03
+import DelbModel.Props.C04
+import DelbModel.Props.C05
+import DelbModel.Props.C06
+import DelbModel.Props.C07
+import DelbModel.Props.C08
+import DelbModel.Props.C09
+import DelbModel.Props.C10
+import DelbModel.Props.C11
+import DelbModel.Props.C12
+import DelbModel.Props.C13
+import DelbModel.Props.C14
+import DelbModel.Props.C15
+import DelbModel.Props.C16
+import DelbModel.Props.C17
+import DelbModel.Props.C18
 import DelbModel.Props.C19
